@@ -127,7 +127,10 @@ let run (prop : string) (input : S.t) (observed : S.t) : S.t * string =
     let ty = cty_of t in
     let one v =
       let value = cv_of v in
-      let (w, bad) = Model.leaf_out ty value in
+      (* an element that stands where a list is declared: nil is the null list, anything else is not a list *)
+      let (w, bad) = (match ty, value with
+          | TListOf _, CNil -> (CNil, false)
+          | _ -> Model.leaf_out ty value) in
       ((if bad then S.L [S.A "err"] else S.L [S.A "ok"; sexp_of_cv w]), value) in
     let exps = List.map one vs in
     let expected = S.L (S.A "okx" :: List.map fst exps) in
